@@ -139,12 +139,14 @@ def main():
                 inconc.append('%s: counterexample did not replay concretely (%s) - engine/encoding problem, not reported as violation' % (h['name'], msgs))
                 ent['verdict'] = 'inconclusive'
             else:
-                kf = [k for k in known.get('findings', []) if k['property'] == pid and k['harness'] == h['name'] and all(any(re.search(k['match'], m) for m in msgs) for _ in [0])]
-                if kf:
-                    for k in kf: known_lines.append('KNOWN-FINDING: property=%s %s' % (pid, k['what']))
-                    ent['verdict'] = 'known-finding'
+                kfs = [k for k in known.get('findings', []) if k['property'] == pid and k['harness'] == h['name']]
+                matched = [k for k in kfs if any(re.search(k['match'], m) for m in msgs)]
+                remaining = [m for m in msgs if not any(re.search(k['match'], m) for k in kfs)]
+                for k in matched: known_lines.append('KNOWN-FINDING: property=%s %s' % (pid, k['what']))
+                if remaining or not matched:
+                    viol_lines.append('VIOLATION property=%s replay=%s   # harness %s: %s' % (pid, rp, h['name'], '; '.join(remaining or msgs)[:300]))
                 else:
-                    viol_lines.append('VIOLATION property=%s replay=%s   # harness %s: %s' % (pid, rp, h['name'], '; '.join(msgs)[:300]))
+                    ent['verdict'] = 'known-finding'
         elif v != 'pass':
             inconc.append('%s: %s %s' % (h['name'], v, str(r.get('reason') or [q for q in r.get('queries', []) if q.get('reason')])[:1500]))
         hsum.append(ent)
